@@ -86,10 +86,43 @@ func generate(c *vf.Ctx) []*Batch {
 	mixedInvalid := c.Pick(20, 50)
 	mixedMaybe := c.Pick(3, 5)
 	nSingle := c.Pick(10, 100)
+	nPairs := c.Pick(8, 40)
 	rr := map[string]int{}
-	mixedSeq := 0
+	mixedSeq, pureSeq := 0, 0
 	var out []*Batch
 	noMissingMeas := false
+	newGen := func(n int, parserOnly bool) *gen {
+		g := &gen{r: c.Rand(uint64(n) + 1), seed: c.Seed, batch: n, rr: rr, measShare: c.Pick(1, 3), parserOnly: parserOnly, noMissingMeas: noMissingMeas}
+		g.meas = fmt.Sprintf("c06b%04d", n)
+		g.prec = precisions[n%len(precisions)]
+		return g
+	}
+	// body: the lines in order, now and then a comment or an empty line in between
+	// (never inside a group of lines that must stay adjacent)
+	finish := func(g *gen, b *Batch, segs [][]Line, decorate bool) {
+		var sb strings.Builder
+		b.Lines = b.Lines[:0]
+		for _, seg := range segs {
+			if decorate && len(segs) > 1 {
+				switch g.r.IntN(25) {
+				case 0:
+					sb.WriteString("# a comment line, u=" + seg[0].ID + " fi=1i\n")
+				case 1:
+					sb.WriteString("\n")
+				}
+			}
+			for _, ln := range seg {
+				b.Lines = append(b.Lines, ln)
+				sb.WriteString(ln.Text)
+				sb.WriteString("\n")
+			}
+		}
+		b.Body = sb.String()
+		if g.r.IntN(2) == 0 {
+			b.Body = strings.TrimSuffix(b.Body, "\n")
+		}
+		out = append(out, b)
+	}
 	mk := func(kind string, nValid, nInvalid, nMaybe, nRestricted int, parserOnly bool) {
 		strict := 0
 		if kind == "pure" {
@@ -98,55 +131,93 @@ func generate(c *vf.Ctx) []*Batch {
 			strict = 1
 		}
 		n := len(out)
-		g := &gen{r: c.Rand(uint64(n) + 1), seed: c.Seed, batch: n, rr: rr, measShare: c.Pick(1, 3), parserOnly: parserOnly, noMissingMeas: noMissingMeas}
+		g := newGen(n, parserOnly)
 		// two requests (one that must be accepted, one mixed) are larger than one read block
-		g.longStrings = kind == "pure" && n == 3 || kind == "mixed" && mixedSeq == 4
-		g.meas = fmt.Sprintf("c06b%04d", n)
-		g.prec = precisions[n%len(precisions)]
+		g.longStrings = kind == "pure" && pureSeq == 3 || kind == "mixed" && mixedSeq == 4
 		b := &Batch{N: n, Kind: kind, Precision: g.prec, Meas: g.meas}
+		var segs [][]Line
 		for i := 0; i < nValid; i++ {
-			b.Lines = append(b.Lines, g.validLine(g.r.IntN(100) < 40 || kind == "single-valid", strict))
+			segs = append(segs, []Line{g.validLine(g.r.IntN(100) < 40 || kind == "single-valid", strict)})
 		}
 		for i := 0; i < nInvalid; i++ {
-			b.Lines = append(b.Lines, g.invalidLine())
+			segs = append(segs, []Line{g.invalidLine()})
 		}
 		for i := 0; i < nMaybe; i++ {
-			b.Lines = append(b.Lines, g.maybeLine())
+			segs = append(segs, []Line{g.maybeLine()})
 		}
 		for i := 0; i < nRestricted; i++ {
-			b.Lines = append(b.Lines, g.restrictedLine())
+			segs = append(segs, []Line{g.restrictedLine()})
 		}
-		g.r.Shuffle(len(b.Lines), func(i, j int) { b.Lines[i], b.Lines[j] = b.Lines[j], b.Lines[i] })
+		switch kind {
+		case "pure":
+			// lines without tags among tagged ones
+			for i, k := 0, 1+nValid/100; i < k; i++ {
+				segs = append(segs, []Line{g.untaggedLine(1+g.r.IntN(4), "among-valid-lines")})
+			}
+		case "mixed":
+			// a line without tags directly after 1..3 invalid lines whose tags are well formed;
+			// after a bad timestamp the line has fewer fields than the refused one
+			for i, k := 0, 2+nValid/40; i < k; i++ {
+				var seg []Line
+				nInv := 1 + g.next("invalid-run", 3)
+				badTS := g.next("invalid-run-ts", 2) == 0
+				for j := 0; j < nInv; j++ {
+					seg = append(seg, g.invalidTaggedLine(badTS))
+				}
+				nf := 1 + g.r.IntN(4)
+				if badTS {
+					nf = 1 + g.r.IntN(2)
+				}
+				seg = append(seg, g.untaggedLine(nf, fmt.Sprintf("directly-after-%d-invalid-tagged-lines", nInv)))
+				segs = append(segs, seg)
+			}
+		}
+		g.r.Shuffle(len(segs), func(i, j int) { segs[i], segs[j] = segs[j], segs[i] })
 		if kind == "mixed" {
 			// alternate what the request ends with (the server's answer depends on it)
 			wantValidLast := (mixedSeq/4)%2 == 0
-			last := len(b.Lines) - 1
-			for i := range b.Lines {
-				if (b.Lines[i].Kind == kValid) == wantValidLast && (b.Lines[i].Kind == kValid || b.Lines[i].Kind == kInvalid) {
-					b.Lines[i], b.Lines[last] = b.Lines[last], b.Lines[i]
+			last := len(segs) - 1
+			for i := range segs {
+				if len(segs[i]) == 1 && (segs[i][0].Kind == kValid) == wantValidLast && (segs[i][0].Kind == kValid || segs[i][0].Kind == kInvalid) {
+					segs[i], segs[last] = segs[last], segs[i]
 					break
 				}
 			}
 		}
-		var sb strings.Builder
-		for i := range b.Lines {
-			if len(b.Lines) > 1 {
-				switch g.r.IntN(25) {
-				case 0:
-					sb.WriteString("# a comment line, u=" + b.Lines[i].ID + " fi=1i\n")
-				case 1:
-					sb.WriteString("\n")
-				}
-			}
-			sb.WriteString(b.Lines[i].Text)
-			if i < len(b.Lines)-1 || g.r.IntN(2) == 0 {
-				sb.WriteString("\n")
-			}
+		finish(g, b, segs, true)
+	}
+	// pairs of requests sent one after the other on an otherwise idle server: the first is
+	// refused because of its last line k (tags well formed), the second has a line without
+	// tags at the same position k
+	for i := 0; i < nPairs; i++ {
+		k := i % 6
+		ga := newGen(len(out), true)
+		a := &Batch{N: ga.batch, Kind: "pair-refused", Precision: ga.prec, Meas: ga.meas}
+		var segs [][]Line
+		for j := 0; j < k; j++ {
+			segs = append(segs, []Line{ga.validLine(false, 2)})
 		}
-		b.Body = sb.String()
-		out = append(out, b)
+		segs = append(segs, []Line{ga.invalidTaggedLine(i%2 == 0)})
+		finish(ga, a, segs, false)
+		gb := newGen(len(out), true)
+		gb.prec = ga.prec
+		b := &Batch{N: gb.batch, Kind: "pure-pair", Precision: gb.prec, Meas: gb.meas, Before: a}
+		segs = nil
+		for j := 0; j < k; j++ {
+			segs = append(segs, []Line{gb.validLine(false, 2)})
+		}
+		nf := 1 + gb.r.IntN(4)
+		if i%2 == 0 {
+			nf = 1 + gb.r.IntN(2)
+		}
+		segs = append(segs, []Line{gb.untaggedLine(nf, "same-position-as-refused-line-of-previous-request")})
+		for j, m := 0, gb.r.IntN(3); j < m; j++ {
+			segs = append(segs, []Line{gb.validLine(false, 2)})
+		}
+		finish(gb, b, segs, false)
 	}
 	for i := 0; i < nPure; i++ {
+		pureSeq = i
 		mk("pure", pureLines, 0, 0, 0, false)
 	}
 	for i := 0; i < nMixed; i++ {
@@ -257,15 +328,35 @@ func run(c *vf.Ctx, s *proc.Server, batches []*Batch) {
 	}
 	r := &runner{c: c, s: s, expected: map[string]bool{sentinelMeas: true}, gone: map[string]bool{}, seen: map[string]bool{}}
 	for _, b := range batches {
-		r.expected[b.Meas] = true
-		for i := range b.Lines {
-			for _, a := range b.Lines[i].Alts {
-				r.expected[a.Meas] = true
+		for _, x := range []*Batch{b, b.Before} {
+			if x == nil {
+				continue
+			}
+			r.expected[x.Meas] = true
+			for i := range x.Lines {
+				for _, a := range x.Lines[i].Alts {
+					r.expected[a.Meas] = true
+				}
 			}
 		}
 	}
-	// phase 1: all writes
-	parallel(len(batches), 8, func(i int) { r.write(batches[i]) })
+	// phase 1a: the request pairs, one request at a time while nothing else is going on
+	// (the second request of a pair gets the parse buffers the first one left behind)
+	for _, b := range batches {
+		if b.Before != nil {
+			if b.Before.Status == 0 {
+				r.write(b.Before)
+			}
+			r.write(b)
+		}
+	}
+	lap("request pairs")
+	// phase 1b: all other writes
+	parallel(len(batches), 8, func(i int) {
+		if batches[i].Status == 0 {
+			r.write(batches[i])
+		}
+	})
 	if !s.Alive() {
 		c.Violation("server-died:during-writes", "ts-server exited while line protocol was being written", map[string]any{"log": s.StdoutTail(4000)})
 		return
@@ -452,8 +543,18 @@ func (r *runner) evaluate(b *Batch, only map[string]bool, reqLevel bool) *verdic
 	accepted := b.Status == 204
 	// which lines are present
 	present := map[string][]obsRow{}
-	for _, byID := range rows {
+	// a measurement that belongs to a line without tags: every series in it is that line's
+	ownMeas := map[string]string{}
+	for i := range b.Lines {
+		if b.Lines[i].NoTags {
+			ownMeas[b.Lines[i].Alts[0].Meas] = b.Lines[i].ID
+		}
+	}
+	for m, byID := range rows {
 		for id, rs := range byID {
+			if owner, ok := ownMeas[m]; ok {
+				id = owner
+			}
 			present[id] = append(present[id], rs...)
 		}
 	}
@@ -601,7 +702,7 @@ func (r *runner) evaluate(b *Batch, only map[string]bool, reqLevel bool) *verdic
 	}
 	if only == nil && reqLevel {
 		// whole-request obligations
-		if b.Kind == "pure" && !accepted {
+		if strings.HasPrefix(b.Kind, "pure") && !accepted {
 			v.findings = append(v.findings, finding{fmt.Sprintf("valid-request-rejected:%d", b.Status),
 				fmt.Sprintf("request %d with only valid lines answered %d %s", b.N, b.Status, b.RespBody), &b.Lines[0]})
 		}
@@ -616,6 +717,9 @@ func (r *runner) evaluate(b *Batch, only map[string]bool, reqLevel bool) *verdic
 		}
 		// every returned series must be explained by a line of this request
 		for m, byID := range rows {
+			if _, ok := ownMeas[m]; ok {
+				continue // judged as a whole with the line that owns the measurement
+			}
 			for u, rs := range byID {
 				if _, ok := ids[u]; !ok {
 					v.findings = append(v.findings, finding{"unexplained-series", fmt.Sprintf("measurement %q returns series %s that no line of the request describes", m, fmtMap(rs[0].Tags)), &b.Lines[0]})
@@ -623,6 +727,33 @@ func (r *runner) evaluate(b *Batch, only map[string]bool, reqLevel bool) *verdic
 			}
 		}
 		v.types = r.fieldTypes(b)
+		// the index must list a line without tags as the bare measurement name
+		for i := range b.Lines {
+			ln := &b.Lines[i]
+			if !ln.NoTags || len(present[ln.ID]) == 0 {
+				continue
+			}
+			meas := ln.Alts[0].Meas
+			res, err := r.s.Query(db, "SHOW SERIES FROM "+quoteIdent(meas), nil)
+			if err != nil {
+				continue
+			}
+			var keys []string
+			for _, sr := range res.Results {
+				for _, se := range sr.Series {
+					for _, row := range se.Values {
+						if len(row) > 0 {
+							keys = append(keys, fmt.Sprint(row[0]))
+						}
+					}
+				}
+			}
+			if len(keys) != 1 || keys[0] != meas {
+				v.types = append(v.types, finding{"valid-mismatch:series-key:untagged", fmt.Sprintf("line %q (no tags): SHOW SERIES lists %q, expected exactly [%q]", ln.Text, keys, meas), ln})
+			} else {
+				v.counts["untagged-series-key-checked"]++
+			}
+		}
 	}
 	return v
 }
@@ -798,6 +929,9 @@ func checkRequired(c *vf.Ctx) {
 	for _, x := range maybeKinds {
 		req = append(req, "maybe:"+x)
 	}
+	req = append(req, "tags:none", "untagged:among-valid-lines", "untagged:same-position-as-refused-line-of-previous-request",
+		"untagged:directly-after-1-invalid-tagged-lines", "untagged:directly-after-2-invalid-tagged-lines", "untagged:directly-after-3-invalid-tagged-lines",
+		"invalid:tagged:bad-field-value", "invalid:tagged:bad-timestamp")
 	catMu.Lock()
 	defer catMu.Unlock()
 	for _, m := range req {
@@ -824,6 +958,9 @@ func replay(c *vf.Ctx) {
 	}
 	b := doc.Witness.Batch
 	b.Status, b.RespBody = 0, ""
+	if b.Before != nil {
+		b.Before.Status, b.Before.RespBody = 0, ""
+	}
 	srv, err := startServer(c, 0)
 	if err != nil {
 		c.Broken("%v", err)
